@@ -559,6 +559,9 @@ pub fn observe_rel(
         p.get_ta_details().ok().map(|d| d.cert.to_bytes())
     });
     let mut rp_problems: Vec<String> = Vec::new();
+    let foreign_points: Vec<String> = w.foreign_key_ids().iter().map(|k| {
+        format!("ca {k}: manifest missing")
+    }).collect();
     let srv_digest = objects_digest(&srv);
     let mut view = |name: &str, objs: Option<&rp::Objects>,
                     err: Option<String>| -> Value {
@@ -570,7 +573,13 @@ pub fn observe_rel(
         if let Some(objs) = objs {
             if let Some(ta) = ta.clone() {
                 let res = match guarded(|| rp::walk(ta, objs)) {
-                    Outcome::Ok(res) => res.problems,
+                    // (the publication point of a child that is not
+                    // hosted here is somewhere else)
+                    Outcome::Ok(res) => res.problems.into_iter().filter(|p| {
+                        !foreign_points.iter().any(|f| {
+                            f.eq_ignore_ascii_case(p)
+                        })
+                    }).collect(),
                     Outcome::Panic(m) | Outcome::Crash(m) => {
                         vec![format!("rp walk panic {m}")]
                     }
